@@ -69,6 +69,8 @@ pub async fn broker(
 ) {
     let mut docs = HashMap::new();
     while let Some(request) = rx.recv().await {
+        #[cfg(feature = "verif")]
+        crate::verif::delay("BROKER").await;
         match request {
             DocumentRequest::Open(uri, text) => {
                 let doc = AnalyzedSource::new(text);
